@@ -35,7 +35,7 @@ PROPS = {
                 ("wc", FF, 1500, 40000), ("dw", FF, 2000, 40000), ("fwa", FF, 1500, 30000), ("fwu", FF, 1500, 30000),
                 ("sw", FF, 1500, 30000), ("bw", FF, 1500, 30000), ("ba", FF, 1500, 30000), ("ff", FF, 1500, 30000),
                 ("of", FF, 1500, 30000), ("ffx", FF, 2000, 50000), ("ofx", FF, 2000, 50000), ("ofu", FF, 2000, 50000), ("wsl", FF, 1500, 30000), ("std", FF, 2000, 50000)],
-        "explanation": "totality theorems for wrap and fill (every byte slice in range and on boundaries), fill_inplace, unfill, split_words (built-in splitters), optimal_fit (every Num), wrap_columns relative to wrap; functions whose model type has no option cannot fail in the model; the rest is exploration: every op under catch_unwind and a watchdog on the adversarial stream, debug build with overflow checks (release as well in the thorough tier), non-finite f64 fragments",
+        "explanation": "totality theorems for wrap and fill (every byte slice in range and on boundaries; with the model of smawk none of the crate's asserts or index operations can fail: C04_smawk_total, C04_wrap_fill_smawk), fill_inplace, unfill, split_words (built-in splitters), optimal_fit (every Num), wrap_columns relative to wrap; functions whose model type has no option cannot fail in the model; the rest is exploration: every op under catch_unwind and a watchdog on the adversarial stream, debug build with overflow checks (release as well in the thorough tier), non-finite f64 fragments",
         "assumptions": ["memory exhaustion, stack depth and wall-clock time are outside the model and only measured"],
     },
     "C05": {
@@ -65,8 +65,8 @@ PROPS = {
     },
     "C06": {
         "ops": [("ff", FF, 12000, 300000), ("of", FF, 8000, 200000), ("ff", MIN, 3000, 50000), ("wrap", FF, 3000, 60000)],
-        "explanation": "theorems C06_first_fit (every Num) and C06_optimal_fit (any minima with smawk's structural row<column shape); L1 compares first-fit groups exactly and optimal-fit groups up to equal exact cost; L2 checks the partition shape of the implementation's slices (pointer offsets) and of every recorded wrap-level partition",
-        "assumptions": ["smawk returns one entry per column with row < column (its own assert!) — minima_ok"],
+        "explanation": "theorems C06_first_fit (every Num), C06_optimal_fit (any minima with the row<column shape) and C06_optimal_fit_smawk: the executable model of the smawk crate never fails and back-tracking its answer is an ordered partition, for every Num and every comparison (law-free); L1 compares first-fit groups exactly and optimal-fit groups up to equal exact cost; L2 checks the partition shape of the implementation's slices (pointer offsets) and of every recorded wrap-level partition",
+        "assumptions": ["the model of smawk (Model/Smawk.v) is tied to the crate by exact agreement on every generated case"],
     },
     "C07": {
         "ops": [("ff", FF, 15000, 400000), ("ff", MIN, 4000, 60000), ("wrap", FF, 3000, 60000), ("wrap", MIN, 2000, 40000)],
